@@ -95,6 +95,13 @@ func (sq *Queue) VerifQuotaPreemptionState() (bool, bool, bool) {
 	return !sq.quotaPreemptionStartTime.IsZero(), !sq.quotaPreemptionStartTime.IsZero() && !time.Now().Before(sq.quotaPreemptionStartTime), sq.isQuotaPreemptionRunning
 }
 
+// VerifQuotaPreemptionStart returns the moment from which quota change preemption may run for this queue (zero: not set).
+func (sq *Queue) VerifQuotaPreemptionStart() time.Time {
+	sq.RLock()
+	defer sq.RUnlock()
+	return sq.quotaPreemptionStartTime
+}
+
 // VerifReservations returns the reservations of the application as allocation key -> node ID.
 func (sa *Application) VerifReservations() map[string]string {
 	sa.RLock()
